@@ -49,8 +49,8 @@ inline int pop_front_unichar(std::string_view& s) {
 }
 
 inline validation_result validate_mqtt_utf8_char(int c) {
-    constexpr int fe_flag = 0xFE;
-    constexpr int ff_flag = 0xFF;
+    // U+FFFE, U+FFFF, U+1FFFE, U+1FFFF, ... U+10FFFE, U+10FFFF
+    constexpr int plane_end_mask = 0xFFFE;
 
     constexpr int multi_lvl_wildcard = '#';
     constexpr int single_lvl_wildcard = '+';
@@ -62,8 +62,7 @@ inline validation_result validate_mqtt_utf8_char(int c) {
         (c < 0x007F || c > 0x009F) && // U+007F...0+009F control characters
         (c < 0xD800 || c > 0xDFFF) && // U+D800...U+DFFF surrogates
         (c < 0xFDD0 || c > 0xFDEF) && // U+FDD0...U+FDEF non-characters
-        (c & fe_flag) != fe_flag && // non-characters
-        (c & ff_flag) != ff_flag
+        (c & plane_end_mask) != plane_end_mask // non-characters
     )
         return validation_result::valid;
 
